@@ -656,9 +656,11 @@ class Inliner:
                 if isinstance(n, ast.Assign) and len(n.targets) == 1 and isinstance(n.targets[0], ast.Name) and isinstance(n.value, ast.Name):
                     x, y = n.targets[0].id, n.value.id
                     if ("__i" in y or y.startswith("__t")) and len(assigns.get(y, [])) == 1 and len(assigns.get(x, [])) == 1:
-                        loads = [z for z in own_nodes(f.node) if isinstance(z, ast.Name) and z.id == y and isinstance(z.ctx, ast.Load)]
-                        if len(loads) == 1 and x not in f.params:
-                            assigns[y][0].id = x
+                        if x not in f.params:
+                            # both names are bound exactly once and denote the same object: one name is enough
+                            for z in own_nodes(f.node):
+                                if isinstance(z, ast.Name) and z.id == y:
+                                    z.id = x
                             self._remove_stmt(f.node, n)
                             changed = True
                             set_parents(f.node)
